@@ -32,6 +32,18 @@ RF = "fast_check::range_finder::PublicRangeFinder::"
 WATCHED = ("symbols::analyzer::SymbolDeclKind", "symbols::dep_analyzer::SymbolNodeDep", "symbols::analyzer::FileDepName", "fast_check::range_finder::ImportedExports", "fast_check::range_finder::Exports", "symbols::cross_module::ResolvedExportOrReExportAllPath")
 
 
+def prefer_types_sites(F, R, tag="C09-X"):
+    # the symbol model and the tracer look at declarations: every dependency lookup in
+    # src/symbols and src/fast_check prefers the types target (sibling agreement)
+    pt_sites = [n for n in F.all_nodes() if callee_matches(n, ["ModuleGraph::resolve_dependency"]) and not n["_top"].get("derived") and (n["_top"]["file"].startswith("src/symbols/") or n["_top"]["file"].startswith("src/fast_check/"))]
+    R.floor(tag + " dependency lookups of the symbol model / tracer", len(pt_sites), 10)
+    for n in pt_sites:
+        a_ = call_args(n)
+        R.ob(tag, "dependency lookup in %s prefers types" % n["_top"]["path"].split("::")[-1], peel(a_[-1]).get("v") is True,
+             "resolve_dependency(.., %s) in %s: the lookup lands on the implementation file instead of its declaration file, so exports/definitions are traced in the wrong module (its siblings all pass `true`)" % (expr_text(a_[-1]), n["_top"]["path"].split("::")[-1]), where(n))
+
+
+
 def run(F, R, tier):
     ti = F.body(T + "transform_item")
     mm = [n for n in ti["_nodes"] if n["k"] == "Match" and tyc(F, n["scrut"], "::ModuleDecl") and peel(n["scrut"]).get("res") == "local"]
@@ -325,6 +337,8 @@ def run(F, R, tier):
         R.ob("C09-X", "every export of a star-traced module is considered", not early,
              "the loop over a module's exports can stop early (`%s`): exports listed after that point are not traced although `export *` makes them public" % (expr_text(early[0])[:20] if early else ""), where(early[0]) if early else "")
     R.floor("C09-X export loops", n_el, 1)
+
+    prefer_types_sites(F, R)
 
     # ---------------- C09-R (referrer of a re-queued qualified trace) ----------
     # the Id trace decides from the referrer whether the parent of a member has
